@@ -384,16 +384,27 @@ def translate(repo=REPO):
     text = HEADER.format(sha=sha) + "\n".join(out) + "\nend Gen\n"
     return text, errors
 
-def main():
+def regenerate():
+    """translate from the current working tree; rewrite Gen/Analytic.lean atomically when its text changed.
+    returns (changed, errors)"""
+    import warnings
     target = os.path.join(os.path.dirname(os.path.abspath(__file__)), "..", "lean", "EoNVerif", "Gen", "Analytic.lean")
-    text, errors = translate()
+    with warnings.catch_warnings():
+        warnings.simplefilter("ignore")
+        text, errors = translate()
     old = open(target).read() if os.path.exists(target) else None
     if old != text:
         os.makedirs(os.path.dirname(target), exist_ok=True)
-        open(target, "w").write(text)
-        print("py2lean: Gen/Analytic.lean rewritten")
-    else:
-        print("py2lean: Gen/Analytic.lean up to date")
+        tmp = target + ".tmp%d" % os.getpid()
+        with open(tmp, "w") as f:
+            f.write(text)
+        os.replace(tmp, target)
+    return old != text, errors
+
+
+def main():
+    changed, errors = regenerate()
+    print("py2lean: Gen/Analytic.lean %s (%d functions)" % ("rewritten" if changed else "up to date", len(SIGS) - len(errors)))
     for n, e in errors.items():
         print(f"py2lean: {n}: {e}")
     return 1 if errors else 0
